@@ -26,7 +26,7 @@ from pymap.parsing.specials.flag import Flag, Seen
 from pymap.selected import SelectedSet, SelectedMailbox
 
 from .flags import MaildirFlags
-from .layout import MaildirLayout
+from .layout import MaildirLayout, DefaultLayout
 from .subscriptions import Subscriptions
 from .uidlist import Record, UidList
 from ..mailbox import MailboxDataInterface, MailboxSetInterface
@@ -531,6 +531,10 @@ class MailboxSet(MailboxSetInterface[MailboxData]):
         for part in name.split(self.delimiter):
             if part in ('', '.', '..') or os.sep in part or '\0' in part:
                 raise exc_type(name)
+            elif isinstance(self._layout, DefaultLayout):
+                if '.' in part:
+                    # nests with '.' on disk: a.b would also be a/b
+                    raise exc_type(name)
         try:
             if len(os.fsencode(name)) > 240:
                 raise exc_type(name)
